@@ -446,3 +446,71 @@ def plan_allowed(prog, plan, avoid_kf1, avoid_kf2):
             if sim is None or not sim.try_exec(w[2], "thunk"):
                 return False
     return True
+
+
+# ----------------------------------------------------------------------------- builtin-needing functions
+# Generating a function that uses one of these instructions makes the generator add helper items
+# (a proto and an import, `_MIR_builtin_proto` / `_MIR_builtin_func`) to the function's module.  The
+# plans below let that happen while ANOTHER module is under construction through the API.
+def _fb(locals_, body):
+    return ["fb:\tfunc\ti64, i64:p, i64:n", "\tlocal\ti64:s, i64:b" + (", " + locals_ if locals_ else ""),
+            "\tadd\ts, n, 77"] + body + ["\tadd\ts, s, b", "\tmov\ti64:8(p), s", "\tret\ts", "\tendfunc"]
+
+
+BUILTIN_KINDS = {
+    "ui2d": ([], _fb("d:d1", ["\tui2d\td1, s", "\tdadd\td1, d1, d1", "\td2i\tb, d1"]), []),
+    "ui2f": ([], _fb("f:f1", ["\tui2f\tf1, s", "\tfadd\tf1, f1, f1", "\tf2i\tb, f1"]), []),
+    "ui2ld": ([], _fb("ld:l1, d:d1", ["\tui2ld\tl1, s", "\tld2d\td1, l1", "\td2i\tb, d1"]), []),
+    "ld2i": ([], _fb("ld:l1", ["\ti2ld\tl1, s", "\tldadd\tl1, l1, l1", "\tld2i\tb, l1"]), []),
+    "va_arg": (["p_vh:\tproto\ti64, i64:k, ...",
+                "vh:\tfunc\ti64, i64:k, ...", "\tlocal\ti64:va, i64:a, i64:r", "\talloca\tva, 64", "\tva_start\tva",
+                "\tva_arg\ta, va, i64:0", "\tmov\tr, i64:(a)", "\tva_arg\ta, va, i64:0", "\tadd\tr, r, i64:(a)",
+                "\tva_end\tva", "\tadd\tr, r, k", "\tret\tr", "\tendfunc"],
+               _fb("", ["\tcall\tp_vh, vh, b, 1, s, n"]), ["vh"]),
+    "blk_arg": (["p_bh:\tproto\ti64, blk:40(a)",
+                 "bh:\tfunc\ti64, blk:40(a)", "\tlocal\ti64:r", "\tmov\tr, i64:8(a)", "\tadd\tr, r, i64:32(a)",
+                 "\tret\tr", "\tendfunc"],
+                _fb("i64:a", ["\talloca\ta, 40", "\tmov\ti64:8(a), s", "\tmov\ti64:32(a), n",
+                              "\tcall\tp_bh, bh, b, blk:40(a)"]), ["bh"]),
+    "va_block_arg": (["p_vb:\tproto\ti64, i64:el, ...",
+                      "vb:\tfunc\ti64, i64:el, ...", "\tlocal\ti64:va, i64:a", "\talloca\tva, 64", "\talloca\ta, 16",
+                      "\tva_start\tva", "\tva_block_arg\ta, va, 16, 12", "\tadd\ti64:8(a), i64:8(a), 18",
+                      "\tret\ti64:8(a)", "\tendfunc"],
+                     _fb("i64:a", ["\talloca\ta, 16", "\tmov\ti64:(a), n", "\tmov\ti64:8(a), s",
+                                   "\tcall\tp_vb, vb, b, 1, blk:16(a)"]), ["vb"]),
+}
+
+
+def builtin_module(kind):
+    pre, fb, helpers = BUILTIN_KINDS[kind]
+    return "\n".join(["mu:\tmodule", "\texport\tfb"] + pre + fb + ["\tendmodule"]) + "\n", helpers
+
+
+def open_module_plans(kind, path, level, mode, pos, interp_ok=True):
+    """plan / canonical / pure-interpretation twin for: base module with a builtin-needing function,
+    then a second module built through the API in steps, with the generation of the base function
+    (mode: lazy first call | MIR_gen under the interpreter interface | MIR_gen under the lazy one)
+    placed between MIR_new_module and MIR_finish_module (pos: first | between | infunc)"""
+    _, helpers = builtin_module(kind)
+    iface = {"lazy-call": "lazy", "gen-under-interp": "interp", "gen-under-lazy": "lazy"}[mode]
+    if mode == "lazy-call":
+        W = ["CALL 0 fb 3", "CALL 0 fb 3"]
+    elif mode == "gen-under-interp":
+        W = [f"GEN {h}" for h in helpers] + ["GEN fb", "GEN fb"]
+    else:
+        W = ["GEN fb", "CALL 0 fb 3"] + [f"GEN {h}" for h in helpers]
+
+    def build(window):
+        if pos == "first":
+            return ["MODBEGIN mo fb"] + window + ["MODFUNC go1 fb", "MODFUNC go2 fb", "MODEND"]
+        if pos == "between":
+            return ["MODBEGIN mo fb", "MODFUNC go1 fb"] + window + ["MODFUNC go2 fb", "MODEND"]
+        return ["MODBEGIN mo fb", "MODFUNCBEGIN go1 fb"] + window + ["MODFUNCEND", "MODFUNC go2 fb", "MODEND"]
+    head = [f"OPT {level}", f"SCAN {path}"]
+    calls = ["CALL 1 go1 3", "CALL 2 go2 5", "CALL 0 fb 3", "CALL 3 fb 9", "CALL 1 go1 3"]
+    interps = ["INTERP 1 go1 3", "INTERP 2 go2 5", "INTERP 0 fb 3", "INTERP 3 fb 9"]
+    plan = head + [f"LOADLINK {iface}", "SNAP s0"] + build(W) + ["CHECKTEXT mid", f"LOADLINK {iface}"] + calls \
+        + (interps if interp_ok else []) + ["CHECKTEXT end"]
+    canon = head + ["LOADLINK gen", "SNAP s0"] + build([]) + ["LOADLINK gen", "CALL 0 fb 3"] + calls + ["CHECKTEXT end"]
+    interp = head + ["LOADLINK interp", "SNAP s0"] + build([]) + ["LOADLINK interp"] + interps + ["CHECKTEXT end"]
+    return plan, canon, interp
